@@ -7,6 +7,7 @@
 
 mod dbg;
 mod engine;
+mod fuzzstage;
 mod keys;
 mod pair;
 mod props;
